@@ -834,9 +834,67 @@ def run(ctx: common.Ctx):  # noqa: C901, PLR0912, PLR0915
                                 "underflowing" if base >= 746 else "moderate"))
         check(ctx, "weights", case, "logrep:weight-ratio")
     ctx.extra.pop("_checked", None)
+    value_semantics_section(ctx, rng)
+
+
+def value_semantics_section(ctx, rng):
+    """Sequences of statements over a pool of named weights (incl. zero weights): `x = a op b` then in-place
+    accumulation into x must leave every OTHER name unchanged (results never alias their operands) and give x
+    the exact value.  Sequences of in-place accumulations are part of the property's quantifier."""
+    from mici.utils import LogRepFloat
+
+    for _ in range(ctx.n(400, 4000)):
+        logs = [float(rng.choice([-INF, -800.0, -3.0, 0.0, 2.5, 700.0])) + (float(rng.normal()) if rng.random() < 0.7 else 0.0)
+                for _ in range(4)]
+        if rng.random() < 0.5:
+            logs[int(rng.integers(4))] = -INF
+        pool = {f"v{i}": LogRepFloat(log_val=l) for i, l in enumerate(logs)}
+        ref = {k: v.log_val for k, v in pool.items()}
+        prog = []
+        ok = True
+        for _step in range(int(rng.integers(2, 7))):
+            a, b = (f"v{int(i)}" for i in rng.integers(0, 4, 2))
+            kind = str(rng.choice(["x=a+b", "x+=a", "x=a*b", "x=a/b"]))
+            prog.append([kind, a, b])
+            try:
+                before = {k: v.log_val for k, v in pool.items()}
+                if kind == "x=a+b":
+                    pool["x"] = pool[a] + pool[b]
+                elif kind == "x+=a":
+                    if "x" not in pool:
+                        pool["x"] = LogRepFloat(log_val=-INF)
+                        before["x"] = -INF
+                    pool["x"] += pool[a]
+                elif kind == "x=a*b":
+                    pool["x"] = pool[a] * pool[b]
+                else:
+                    if pool[b].log_val == -INF:
+                        continue
+                    pool["x"] = pool[a] / pool[b]
+            except Exception as e:  # noqa: BLE001
+                ctx.violation("logrep:statement-sequence exception", f"{type(e).__name__}: {e} in {prog} from log-values {logs}",
+                              {"value_semantics": {"logs": [fx(v) for v in logs], "prog": prog}})
+                ok = False
+                break
+            # no name other than x may have changed
+            changed = [k for k in before if k != "x" and not (pool[k].log_val == before[k] or (pool[k].log_val != pool[k].log_val and before[k] != before[k]))]
+            aliased = [k for k in pool if k != "x" and pool[k] is pool.get("x")]
+            if changed or (aliased and kind != "x+=a"):
+                ctx.violation("logrep:operand aliasing",
+                              f"after {prog} from log-values {logs}: operand(s) {changed or aliased} changed / are aliased by the result",
+                              {"value_semantics": {"logs": [fx(v) for v in logs], "prog": prog}})
+                ok = False
+                break
+        ctx.case({"value_semantics": common.stable_hash([logs, prog])}, nontrivial=len(prog) >= 3)
+        ctx.count("value_semantics_sequences")
+        del ok
 
 
 def replay(ctx, obj):  # noqa: ARG001
+    if "value_semantics" in obj:
+        sub = common.Ctx(ctx.prop, ctx.tier, ctx.seed)
+        value_semantics_section(sub, common.rng_for(sub))
+        return bool(sub.violations)
     if obj.get("oracle") in ORACLES:
         try:
             return bool(ORACLES[obj["oracle"]](obj["case"]))
